@@ -294,6 +294,14 @@ def case_obj(sig, meth, pos, kw, ign):
     return {"sig": sig, "meth": meth, "pos": pos, "kw": kw, "ign": ign}
 
 
+def case_size(x):
+    c = x.get("case", x) if isinstance(x, dict) else {}
+    if not isinstance(c, dict) or "sig" not in c:
+        return (99, 0, "")
+    return (len(c["sig"]) + (1 if c.get("meth") else 0) + len(c.get("ign") or []), len(c["pos"]) + len(c["kw"]),
+            json.dumps(c, sort_keys=True))
+
+
 def shard_worker(job):
     """groups -> implementation, model, judgement.  Runs in a worker process; returns a summary."""
     driver, groups, with_ignore, keep_enc = job
@@ -414,7 +422,7 @@ def shard_worker(job):
             judge(g2, run_impl_groups(g2))
     for k in ("spec_bad", "insp_bad", "model_bad", "oracle_bad", "frag_bad", "wf_bad"):
         S[k + "_n"] = len(S[k])
-        S[k] = S[k][:3]
+        S[k] = sorted(S[k], key=case_size)[:3]  # report the smallest inputs
     return S
 
 
@@ -552,6 +560,8 @@ def run(ctx):
         ex = [x for S in sums for x in S["rejected_diff"]][:1]
         ctx.note("model and implementation differ on %d calls that Python REJECTS (outside the property; not a "
                  "violation), e.g. %s" % (tot["rejected_diff_n"], json.dumps(ex)))
+    for k in firsts:
+        firsts[k].sort(key=case_size)
     # ---- in-Coq cross-check of the extracted driver
     enc = enc[: (400 if quick else 6000)]
     vals = ctx.coq_eval_lines(REQ, "", [coq_expr(c["sig"], c["meth"], c["pos"], c["kw"], c["ign"]) for c, _ in enc],
